@@ -43,8 +43,11 @@ def base_traces(versions, for_c19=False):
                                                        ("VTc", u32(1, 1)), ("VTx", u32(1, 0)), ("VAr", b""), ("VAR", b""),
                                                        ("VTp", u32(1, 0)), ("VTr", u32(1, 0)), ("VTe", u32(1, 0)),
                                                        ("OF[", b""), ("OF]", b""), ("OHe", b""), ("OF[", b""), ("OF]", b"")])},
-        "loom.n0/proc.100/thread.102": {"meta": meta(102, 100, "n0", req=("nosv",)),
-                                        "events": evs([_x(1, 102), ("OHC", i32(1) + i64(7)), ("OAs", i32(1)), ("OHp", b""), ("OHr", b""),
+        # only the second thread defines user mark types (and uses one)
+        "loom.n0/proc.100/thread.102": {"meta": meta(102, 100, "n0", req=("nosv",),
+                                                     extra={"ovni": {"mark": {"3": {"title": "m3", "chan_type": "single"},
+                                                                              "4": {"title": "m4", "chan_type": "stack", "labels": {"1": "one"}}}}}),
+                                        "events": evs([_x(1, 102), ("OHC", i32(1) + i64(7)), ("OM=", i64(5) + i32(3)), ("OAs", i32(1)), ("OHp", b""), ("OHr", b""),
                                                        ("VSh", b""), ("VSf", b""), ("OHe", b""), ("OF[", b""), ("OF]", b"")], 101)},
     }
     # T2: Nanos6
@@ -71,6 +74,17 @@ def base_traces(versions, for_c19=False):
                                        "events": evs([_x(0, 21), ("DR[", b""), ("DR]", b""), ("OHe", b""), ("OF[", b""), ("OF]", b"")], 102)},
     }
     if for_c19:
+        # T6 (C19 only): two looms with nOS-V tasks and the breakdown view enabled (emulated with -b)
+        bd = {"nosv": {"can_breakdown": True}}
+        out["bd2"] = {
+            "loom.n0/proc.100/thread.101": {"meta": meta(101, 100, "n0", cpus=[(0, 0), (1, 1)], req=("nosv",), extra=bd),
+                                            "events": evs([_x(0, 101), ("VYc", b"", u32(1) + b"fa\0"), ("VTc", u32(1, 1)), ("VTx", u32(1, 0)),
+                                                           ("VAr", b""), ("VAR", b""), ("VTe", u32(1, 0)), ("VPr", b""), ("VPp", b""),
+                                                           ("OHe", b""), ("OF[", b""), ("OF]", b"")])},
+            "loom.n1/proc.200/thread.201": {"meta": meta(201, 200, "n1", cpus=[(0, 0)], req=("nosv",), extra=bd, app=2),
+                                            "events": evs([_x(0, 201), ("VYc", b"", u32(1) + b"fb\0"), ("VTc", u32(1, 1)), ("VTx", u32(1, 0)),
+                                                           ("VTe", u32(1, 0)), ("OHe", b""), ("OF[", b""), ("OF]", b"")], 101)},
+        }
         # T5 (C19 only, the emulator refuses it until it is sorted): an unordered region whose events, one of them a jumbo event,
         # belong before the region; the jumbo data is all 0xff so that any mis-sized walk over it decodes absurd sizes
         out["sortregion"] = {
